@@ -37,7 +37,7 @@ def pixel2world_single_axis(wcs, *pixel, world_axis=None):
         raise ValueError("world_axis needs to be set")
 
     if np.size(pixel[0]) == 0:
-        return np.array([], dtype=float)
+        return np.zeros(np.shape(pixel[0]), dtype=float)
 
     original_shape = pixel[0].shape
     pixel_new = []
